@@ -622,7 +622,7 @@ func main() {
 		n /= *nshard
 		seen := map[string]int{}
 		for i := 0; i < n; i++ {
-			big := i%25 == 24
+			big := i%12 == 11
 			h, v := runHistory(*prop, rng, r, big)
 			r.Eval(1)
 			if i == 0 && *shard == 0 {
